@@ -1,6 +1,6 @@
 // C19 — simplex parametrisations always yield a probability vector and invert exactly
 // VF-VARIANT: san
-// VF-RULE: E2 product spaces, every index executed. (1) theta-lattice: method x zero-allowing flag x dimension x every theta vector of the lattice {1e-9,1/4,1/2,3/4,1-1e-9}^(n-1) (n<=7), and for 8<=n<=33 every vector that deviates from one of three base vectors (theta==1/2, theta==1/4, theta_i=1/(n-i)) in at most D coordinates to any lattice value; each is pushed through all three update entry points, copied (constructor, clone, assignment) and mutated, and fed back through both probability entry points. (2) probability vectors: every composition of 8 into n positive parts (/8, n<=8) and 12 constructed families with entries down to 1e-9 for every n in 1..33, through the constructor, the frequency setter on a fresh and on a used object, plain and ordered variant. (3) injectivity: per method and n<=7 the images of the whole theta lattice are sorted and scanned for duplicates. (4) the two other users of the global-ratio coding that keep a copy of the vector next to the parameters: every operation history up to depth 4 (thorough 5) over 10 operations on a FullHmmTransitionMatrix (two caching readers, frequency setter with three matrices, two parameter update routes, copy, assignment from another matrix, namespace change; n=2,3) and over 9 operations on a MixtureOfDiscreteDistributions of constants (five parameter update routes incl. a zero theta, three namespaces, copy; n=2,3); after every operation the rows / weights the getters return are compared with the image of the parameters the object reports. (5) every history up to depth 3 (thorough 4) over 9 operations on one Simplex / OrderedSimplex object (method x zero-allowing x n=2..4): single-parameter and list updates (a foreign parameter first in the list), the frequency setter with two admissible vectors and two vectors it refuses (a zero entry, a sum of 1.1), copy; after every operation, refused or not, the probabilities must be the image of the reported parameters (fresh object as reference) and the ordered values the tail sums of the probabilities. A case is non-trivial when n>=2.
+// VF-RULE: E2 product spaces, every index executed. (1) theta-lattice: method x zero-allowing flag x dimension x every theta vector of the lattice {1e-9,1/4,1/2,3/4,1-1e-9}^(n-1) (n<=7), of {1e-13,1/2,1-1e-13}^(n-1) (n<=4), and for 8<=n<=33 every vector that deviates from one of three base vectors (theta==1/2, theta==1/4, theta_i=1/(n-i)) in at most D coordinates to any lattice value; each is pushed through all three update entry points, copied (constructor, clone, assignment) and mutated, and fed back through both probability entry points. (2) probability vectors: every composition of 8 into n positive parts (/8, n<=8) and 12 constructed families with entries down to 1e-9 for every n in 1..33, through the constructor, the frequency setter on a fresh and on a used object, plain and ordered variant. (3) injectivity: per method and n<=7 the images of the whole theta lattice are sorted and scanned for duplicates. (4) the two other users of the global-ratio coding that keep a copy of the vector next to the parameters: every operation history up to depth 4 (thorough 5) over 10 operations on a FullHmmTransitionMatrix (two caching readers, frequency setter with three matrices, two parameter update routes, copy, assignment from another matrix, namespace change; n=2,3) and over 9 operations on a MixtureOfDiscreteDistributions of constants (five parameter update routes incl. a zero theta, three namespaces, copy; n=2,3); after every operation the rows / weights the getters return are compared with the image of the parameters the object reports. (5) every history up to depth 3 (thorough 4) over 10 operations on one Simplex / OrderedSimplex object (method x zero-allowing x n=2..4): single-parameter and list updates (a foreign parameter first in the list), the frequency setter with two admissible vectors and two vectors it refuses (a zero entry, a sum of 1.1), aliasing one ratio to another, copy (the source is kept and must not change while the copy is worked on); after every operation, refused or not, the probabilities must be the image of the reported parameters (fresh object as reference) and the ordered values the tail sums of the probabilities. A case is non-trivial when n>=2.
 // VF-BOUND: theta in a 5-value lattice instead of (0,1); full lattice only for n<=7 (quick n<=6), beyond that at most D deviating coordinates (quick: D=2 for n<=9 and n in 15..17, D=1 otherwise; thorough: D=2 for every n<=33 and D=3 for n in {8,9,16}); probability vectors from dyadic compositions (n<=8) and 12 families per dimension instead of the whole simplex; all dimensions 1..33 are covered for the families and the deviation lattice; the histories of (4) are bounded in depth (4 / 5), in dimension (2, 3) and in the values written (listed in the harness)
 // VF-LEVEL: bounded-exhaustive check on the real classes: every listed method x dimension x lattice vector is executed, and every operation history up to the stated depth on a transition matrix, a mixture and a single simplex object (explicit enumeration of histories, each replayed on a fresh object, reference = image of the reported parameters); tolerances are forward-error bounds of the documented formulas evaluated in double, derived next to their use; nothing sampled
 // VF-ASSUME: IEEE double arithmetic with round-to-nearest;; the parameters of a simplex are stored as doubles, so a probability vector is 'returned unchanged to rounding' when it is within the forward error of rounding the parameters (this scales with p_i/p_(i+1) for the local-ratio method);; behaviour between lattice points is not observed
@@ -478,9 +478,9 @@ static void mixHistory(int n, const std::vector<int>& ops, vf::Case& c) {
 // ---- histories on one Simplex / OrderedSimplex object, rejected setter calls included ---------------------------------------------
 // After every operation (accepted or refused with the library's exception) the probabilities the getter returns must be the image of the
 // parameters the object reports: a fresh object given the same parameters is the reference (same code, no history).
-static const int SOPS = 9;
+static const int SOPS = 10;
 static const char* SOPN[SOPS] = {"setParameterValue(theta1=0.25)", "setParameterValue(last theta=0.75)", "matchParametersValues(foreign, one theta=0.6)", "setFrequencies(ramp)", "setFrequencies(uniform)",
-                                 "setFrequencies(first entry 0, sums to one)", "setFrequencies(sums to 1.1)", "copy", "matchParametersValues(every theta=0.4)"};
+                                 "setFrequencies(first entry 0, sums to one)", "setFrequencies(sums to 1.1)", "copy (work goes on with the copy, the source is kept and watched)", "matchParametersValues(every theta=0.4)", "aliasParameters(theta1 <- theta2)"};
 static void simplexHistory(int m, bool allowNull, bool ordered, int n, const std::vector<int>& ops, vf::Case& c) {
   std::string ctx = std::string(ordered ? "OrderedSimplex " : "Simplex ") + MN[m] + (allowNull ? " allowNull" : "") + " n=" + str(n) + " history:";
   auto orderedOf = [](const Vd& p) { Vd v(p.size()); long double x = 0; for (size_t i = p.size(); i > 0; --i) { x += (long double)p[i - 1] / i; v[i - 1] = (double)x; } return v; };
@@ -488,6 +488,7 @@ static void simplexHistory(int m, bool allowNull, bool ordered, int n, const std
     std::unique_ptr<Simplex> S(ordered ? new OrderedSimplex((size_t)n, (unsigned short)m, allowNull) : new Simplex((size_t)n, (unsigned short)m, allowNull));
     // neither the setter nor the getter is virtual: the ordered variant is driven through its own type
     auto setF = [&](const Vd& v) { if (ordered) dynamic_cast<OrderedSimplex&>(*S).setFrequencies(v); else S->setFrequencies(v); };
+    std::unique_ptr<Simplex> Src; Vd srcTh, srcP;   // the source of the last copy and what it held when the copy was taken
     for (size_t k = 0; k <= ops.size(); ++k) {
       if (k > 0) {
         int op = ops[k - 1]; ctx += std::string(" ") + SOPN[op];
@@ -505,12 +506,15 @@ static void simplexHistory(int m, bool allowNull, bool ordered, int n, const std
             case 4: c.site("Simplex::setFrequencies"); setF(unif); break;
             case 5: c.site("Simplex::setFrequencies (zero entry)"); setF(zero); break;
             case 6: c.site("Simplex::setFrequencies (sum 1.1)"); setF(big); break;
-            case 7: c.site("Simplex::clone"); S.reset(ordered ? new OrderedSimplex(dynamic_cast<OrderedSimplex&>(*S)) : S->clone()); break;
+            case 7: { c.site("Simplex::clone"); Simplex* cp = ordered ? new OrderedSimplex(dynamic_cast<OrderedSimplex&>(*S)) : S->clone();
+              Src = std::move(S); S.reset(cp); srcTh = thetas(*Src); srcP = Src->Simplex::getFrequencies(); break; }
+            case 9: c.site("Simplex::aliasParameters"); S->aliasParameters("theta1", "theta2"); break;   // theta2 follows theta1 from now on (n >= 3; refused otherwise)
             case 8: { ParameterList pl; for (int i = 0; i + 1 < n; ++i) pl.addParameter(Parameter(S->getNamespace() + tname(i), 0.4)); c.site("Simplex::matchParametersValues"); S->matchParametersValues(pl); break; }
           }
         } catch (bpp::Exception&) { ctx += "(refused)"; c.tag(std::string("simplex-history:refused:") + (op == 5 ? "zero-entry" : op == 6 ? "sum" : "other")); }
       }
       c.site("Simplex::getFrequencies (history audit)");
+      if (Src && (thetas(*Src) != srcTh || Src->Simplex::getFrequencies() != srcP)) { c.fail("simplex-history|copy-not-independent-of-its-source", ctx + ": the source of the copy held theta=" + vstr(srcTh) + " and now holds " + vstr(thetas(*Src)) + " (probabilities " + vstr(Src->Simplex::getFrequencies()) + ")"); return; }
       Vd th = thetas(*S);
       bool open = true; for (double t : th) if (!(t > 0 && t < 1)) open = false;
       if (!open) { c.tag("simplex-history:parameter-on-the-closed-boundary(not judged further)"); return; }    // outside the open cube (zero-allowing objects only)
@@ -557,6 +561,13 @@ int main(int argc, char** argv) {
       thetaCase(m, an, devVector(n - 1, D, base, k), k < (uint64_t)(n <= 9 ? 40 : 8), c, idx % 50021 == 7);   // path/history/copy checks on the first vectors only (cost)
     }, 10.0);
   }
+  // (1c) ratios far closer to the ends of the open interval than the lattice: every vector over {1e-13, 1/2, 1-1e-13}^(n-1), n = 2..4
+  R.space("theta-lattice:extremes{1e-13,1/2,1-1e-13}:n2..4:methods3:null2", (uint64_t)(3 + 9 + 27) * 6, [=](uint64_t idx, vf::Case& c) {
+    static const double XT[3] = {0.5, 1e-13, 1 - 1e-13};
+    int m = (int)(idx % 3) + 1; bool an = (idx / 3) % 2; uint64_t k = idx / 6; int n = 2; uint64_t cnt = 3; while (k >= cnt) { k -= cnt; cnt *= 3; ++n; }
+    Vd t; for (int i = 1; i < n; ++i) { t.push_back(XT[k % 3]); k /= 3; }
+    thetaCase(m, an, t, false, c, idx % 7 == 3);
+  }, 10.0);
   // (2) probability vectors
   for (int n = 1; n <= 8; ++n) {
     uint64_t cnt = choose(7, n - 1);
